@@ -231,6 +231,7 @@ Ltac istep IHe IHc IHx :=
   | |- mrel _ (slice_eval _ _ _ _) (slice_eval _ _ _ _) => apply slice_eval_rel; solve_rel
   | |- mrel _ (call_builtin _ _ _) (call_builtin _ _ _) => apply call_builtin_rel; solve_rel
   | |- mrel _ (call_method _ _ _) (call_method _ _ _) => apply call_method_rel; solve_rel
+  | |- mrel _ (call_method_kw _ _ _ _) (call_method_kw _ _ _ _) => apply call_method_kw_rel; solve_rel
   | |- mrel _ (alloc_list _) (alloc_list _) => apply alloc_list_rel; solve_rel
   | |- mrel _ (alloc_dict _) (alloc_dict _) => apply alloc_dict_rel; solve_rel
   | |- mrel _ (alloc_cells _) (alloc_cells _) => apply alloc_cells_rel
